@@ -251,6 +251,7 @@ func (x *world) open() error {
 	if x.client.Dialect != "" {
 		x.env.Count("probe.backend-dialect." + x.client.Dialect)
 	}
+	x.announced = append(x.announced, simchain.Announce{}) // session marker
 	x.client.AnnounceLog = &x.announced
 	x.client.AsyncRescan = x.p.C("async_rescan", 0) == 1
 	x.client.BtcdStyleRescan = x.p.C("btcd_rescan", 0) == 1
@@ -586,13 +587,27 @@ func (x *world) spenderAnnouncedBeforeParent(ds []wtxmgr.TxDetails) (found bool,
 	for i := range ds {
 		byHash[ds[i].Hash] = &ds[i]
 	}
+	// since when, in the current client session, has the wallet been told
+	// without interruption that tx is confirmed in block (-1: not told in
+	// this session — it knew before, or never)
 	first := func(tx, block chainhash.Hash) int {
+		start := 0
 		for i, a := range x.announced {
-			if a.Tx == tx && a.Block == block {
-				return i
+			if a.Tx == (chainhash.Hash{}) && a.Block == (chainhash.Hash{}) && !a.Disc {
+				start = i
 			}
 		}
-		return -1
+		since := -1
+		for i := start; i < len(x.announced); i++ {
+			a := x.announced[i]
+			switch {
+			case a.Disc && a.Block == block:
+				since = -1
+			case !a.Disc && a.Tx == tx && a.Block == block && since < 0:
+				since = i
+			}
+		}
+		return since
 	}
 	for i := range ds {
 		c := &ds[i]
